@@ -41,3 +41,14 @@ Theorem C08_vector_lane_complementary : forall g, (0 < g)%nat -> forall (x y : n
   ((forall i, (i < n)%nat -> veq g x y ones i <> 0) <-> ~ (exists i, (i < n)%nat /\ vne g x y ones i <> 0)).
 Proof. exact veq_vne_complementary. Qed.
 Print Assumptions C08_vector_lane_complementary.
+
+(* poly::operator bool() OF THE SOURCE (read from the source on every run: std::find_if(begin(), end(), [](value_type v) { return v != 0; }) != end(),
+   emitted with MemSem.find_if -- the offset of the first element satisfying the predicate, the end if none): the conversion of a plain
+   polynomial to bool is true exactly when some stored word is non-zero, for every degree, number of moduli and contents, all limb types. *)
+From NTT Require PolyBoolSpec.
+From NTT.gen Require GenLoop.
+Theorem C08_source_poly_bool : forall n nm data, (nm * n <= length data)%nat ->
+  let any := Some (List.existsb (fun v => negb (Z.eqb v 0)) (List.firstn (nm * n) data)) in
+  GenLoop.gen_poly_bool_u16 (Z.of_nat n) (Z.of_nat nm) data = any /\ GenLoop.gen_poly_bool_u32 (Z.of_nat n) (Z.of_nat nm) data = any /\ GenLoop.gen_poly_bool_u64 (Z.of_nat n) (Z.of_nat nm) data = any.
+Proof. exact PolyBoolSpec.source_poly_bool. Qed.
+Print Assumptions C08_source_poly_bool.
